@@ -28,7 +28,14 @@ fn short_hash(s: &str) -> String {
 fn write_replay(env: &Env, prop: &str, v: &CViol, no_std: bool) -> std::path::PathBuf {
     let dir = env.verif.join("replays").join(format!("{prop}-{}", short_hash(&format!("{}|{}", v.signature, v.unit.source))));
     std::fs::create_dir_all(&dir).ok();
-    let case = json!({
+    let case = case_json(prop, v, no_std);
+    std::fs::write(dir.join("case.json"), serde_json::to_string_pretty(&case).unwrap()).expect("replay");
+    dir
+}
+
+/// the self-contained replay record of a compile-verdict violation
+pub fn case_json(prop: &str, v: &CViol, no_std: bool) -> Value {
+    json!({
         "property": prop,
         "kind": "compile-verdict",
         "signature": v.signature,
@@ -43,9 +50,7 @@ fn write_replay(env: &Env, prop: &str, v: &CViol, no_std: bool) -> std::path::Pa
         "expected": v.expected,
         "actual": v.actual,
         "source": v.unit.source,
-    });
-    std::fs::write(dir.join("case.json"), serde_json::to_string_pretty(&case).unwrap()).expect("replay");
-    dir
+    })
 }
 
 /// judge the verdicts of `units` against their expectations
